@@ -455,6 +455,38 @@ func C18(r *eng.Run) {
 	})
 	r.Phase("word-structured bases and exponents", t0, nil)
 
+	// bases 2^a*10^s and 5^a*10^s with small integer exponents of both signs: the power (or its reciprocal)
+	// is an exact binary-limit value such as 2^182*10^q, where the 192-bit quotient loops change regime
+	t0 = time.Now()
+	var xp, yp []ref.Bits
+	for a := 1; a <= 112; a++ {
+		for _, base := range []int64{2, 5} {
+			K := new(big.Int).Exp(big.NewInt(base), big.NewInt(int64(a)), nil)
+			if K.Cmp(ref.Cmax) > 0 {
+				continue
+			}
+			L := len(K.String())
+			for _, sh := range []int{0, -L, -L - 6, -40, -L + 2} {
+				if !r.Thorough() && sh == -L+2 {
+					continue
+				}
+				addTo(&xp, false, K, sh)
+			}
+		}
+	}
+	for n := int64(2); n <= 40; n++ {
+		addTo(&yp, false, big.NewInt(n), 0)
+		addTo(&yp, true, big.NewInt(n), 0)
+	}
+	xp = uniqBits(xp)
+	r.Bounds["power_of_two_and_five_bases"] = len(xp)
+	r.Par(len(xp), func(w *eng.W, i int) {
+		for _, y := range yp {
+			checkPow(w, xp[i], y)
+		}
+	})
+	r.Phase("powers of two and five as bases x small integer exponents", t0, nil)
+
 	// exponents that land the power at the thresholds: y = ln(T)/ln(x) rounded to 34 digits +- few ulps
 	t0 = time.Now()
 	c := hp.Get(hpP2)
